@@ -139,7 +139,9 @@ func workerRun(p *Program, job *Job) {
 		env.Stats.Evaluations++
 		vs := chk.Eval(env, c)
 		last = i
-		hasher.note(i, c, vs)
+		if h := hasher.note(i, c, vs); job.DumpLog {
+			send(Msg{T: "log", I: i, Hash: h})
+		}
 		for _, v := range vs {
 			v.Prop = job.Prop
 			if known[v.Signature] {
